@@ -214,7 +214,65 @@ Print Assumptions C05_partition_unique_invariant_init.
 (* ---- node bridges (harness/mkprops_nodes.py): end ---- *)
 
 (* ---- generated by harness/mkprops_sync.py: begin ---- *)
+From SZ Require Sync.FeedbackRC.
 From SZ Require Sync.RefCountFull.
+From SZ Require Sync.RefCount.
+From SZ Require Sync.RefCountFull.
+From SZ Require Sync.Feedback.
+Section G_push_excess_any_graph.
+Import SZ.Sync.RefCount.
+Import SZ.Sync.RefCountFull.
+Import SZ.Sync.Feedback.
+Import SZ.Sync.FeedbackRC.
+Theorem C05_push_excess_any_graph : forall g : graph, all_params_ok g -> all_state_first g -> forall (fuel depth d : nat) (w : world) (y : val) (my : list mdi) (w' : world), RefCountFull.WInv g w -> push fuel g depth d w y my = (w', SOk) -> RefCountFull.WInv g w' /\ (forall r : nat, excess g w' r = excess g w r).
+Proof. exact (@push_excess_any_graph). Qed.
+End G_push_excess_any_graph.
+Print Assumptions C05_push_excess_any_graph.
+Section G_exec_excess_any_graph.
+Import SZ.Sync.RefCount.
+Import SZ.Sync.RefCountFull.
+Import SZ.Sync.Feedback.
+Import SZ.Sync.FeedbackRC.
+Theorem C05_exec_excess_any_graph : forall (g : graph) (fuel : nat), all_params_ok g -> all_state_first g -> forall (evs : list event) (w w' : world), RefCountFull.WInv g w -> emits_only evs -> exec_from fuel g w evs = (w', SOk) -> RefCountFull.WInv g w' /\ (forall r : nat, excess g w' r = excess g w r).
+Proof. exact (@exec_excess_any_graph). Qed.
+End G_exec_excess_any_graph.
+Print Assumptions C05_exec_excess_any_graph.
+Section G_balance_at_quiescence_any_graph.
+Import SZ.Sync.RefCount.
+Import SZ.Sync.RefCountFull.
+Import SZ.Sync.Feedback.
+Import SZ.Sync.FeedbackRC.
+Theorem C05_balance_at_quiescence_any_graph : forall (g : graph) (fuel : nat) (evs : list event) (w : world), all_params_ok g -> all_state_first g -> emits_only evs -> exec_from fuel g (init_world g) evs = (w, SOk) -> forall r : nat, cnt w r = holders g w r.
+Proof. exact (@balance_at_quiescence_any_graph). Qed.
+End G_balance_at_quiescence_any_graph.
+Print Assumptions C05_balance_at_quiescence_any_graph.
+Section G_count_nonneg_any_graph.
+Import SZ.Sync.RefCount.
+Import SZ.Sync.RefCountFull.
+Import SZ.Sync.Feedback.
+Import SZ.Sync.FeedbackRC.
+Theorem C05_count_nonneg_any_graph : forall (g : graph) (fuel : nat) (evs : list event) (w : world), all_params_ok g -> all_state_first g -> emits_only evs -> exec_from fuel g (init_world g) evs = (w, SOk) -> forall r : nat, (0 <= cnt w r)%Z.
+Proof. exact (@count_nonneg_any_graph). Qed.
+End G_count_nonneg_any_graph.
+Print Assumptions C05_count_nonneg_any_graph.
+Section G_zip_latest_cycle_unbalanced.
+Import SZ.Sync.RefCount.
+Import SZ.Sync.RefCountFull.
+Import SZ.Sync.Feedback.
+Import SZ.Sync.FeedbackRC.
+Theorem C05_zip_latest_cycle_unbalanced : all_params_ok zlg /\ emits_only zl_evs /\ snd zl_run = SOk /\ (forall d : nat, d < length zlg -> d <> 3 -> Feedback.state_first_kindb (nkind (gnode zlg d)) = true) /\ Feedback.reentered (log (fst zl_run)) = true /\ map (cnt (fst zl_run)) (seq 0 3) = [(-1)%Z; (-1)%Z; 0%Z] /\ map (holders zlg (fst zl_run)) (seq 0 3) = [0%Z; 0%Z; 1%Z] /\ fired (fst zl_run) = [1; 0; 0; 1; 1; 2].
+Proof. exact (@zip_latest_cycle_unbalanced). Qed.
+End G_zip_latest_cycle_unbalanced.
+Print Assumptions C05_zip_latest_cycle_unbalanced.
+Section G_balance_needs_state_first_refuted.
+Import SZ.Sync.RefCount.
+Import SZ.Sync.RefCountFull.
+Import SZ.Sync.Feedback.
+Import SZ.Sync.FeedbackRC.
+Theorem C05_balance_needs_state_first_refuted : ~ (forall (g : graph) (fuel : nat) (evs : list event) (w : world), all_params_ok g -> emits_only evs -> exec_from fuel g (init_world g) evs = (w, SOk) -> forall r : nat, cnt w r = holders g w r).
+Proof. exact (@balance_needs_state_first_refuted). Qed.
+End G_balance_needs_state_first_refuted.
+Print Assumptions C05_balance_needs_state_first_refuted.
 Section G_kind_books_inv.
 Import SZ.Sync.RefCountFull.
 Theorem C05_kind_books_inv : forall (nd : node) (s : nstate) (p : nat) (x : val) (m : list mdi) (acts : list action) (r : nat), node_inv nd s -> p < length (ups nd) -> update (nkind nd) s p x m = Some acts -> books acts r = (occ (held (nkind nd) (final_state acts s)) r - occ (held (nkind nd) s) r)%Z.
